@@ -417,6 +417,13 @@ class SymFloat(object):
 
     def __float__(self):
         ctx = core.current()
+        if ctx is not None and ctx.message_floats:
+            # a number formatted into a message (warning text): a representative value of the
+            # current model, not pinned; such strings are outside the claim
+            ctx.message_float_count += 1
+            m = ctx._ensure_model()
+            from .session import eval_under
+            return float(eval_under(m, self))
         if ctx is None or not ctx.allow_realize:
             raise Unsupported("float() of a symbolic number reached C code")
         return realize(self)
